@@ -38,7 +38,7 @@ func WithDeadline(p context.Context, t time.Time) (context.Context, context.Canc
 }
 
 // Err is ctx.Err() with a scheduling point.
-func Err(c context.Context) error { vrt.Point(); return c.Err() }
+func Err(c context.Context) error { vrt.ShimOps++; vrt.Point(); return c.Err() }
 
 // Cause is context.Cause with a scheduling point.
 func Cause(c context.Context) error { vrt.Point(); return context.Cause(c) }
